@@ -207,8 +207,46 @@ class ShardOutcome:
 # --------------------------------------------------------------------------
 # running cases
 # --------------------------------------------------------------------------
+def set_debug_logging(on: bool) -> None:
+    """Debug logging is a configuration every property quantifies over implicitly: a case with
+    "debug": true runs with the package's loggers at DEBUG (APIClient then passes debug_enabled=True down to
+    the connection and the frame helpers) and with a handler that formats every record like a real one."""
+    import logging
+
+    lg = logging.getLogger("aioesphomeapi")
+    if on and not any(getattr(h, "_vf_fmt", False) for h in lg.handlers):
+
+        class Fmt(logging.Handler):
+            _vf_fmt = True
+
+            def emit(self, record):  # format like a real handler, then drop
+                record.getMessage()
+
+            def handleError(self, record):  # a formatting failure is the logging module's business, not an oracle
+                pass
+
+        lg.addHandler(Fmt())
+    lg.setLevel(logging.DEBUG if on else logging.CRITICAL)
+
+
+def with_debug(strategy):
+    """Wrap a module's case strategy: about one case in five runs with debug logging enabled."""
+    from hypothesis import strategies as st
+
+    @st.composite
+    def _s(draw):
+        case = draw(strategy)
+        if isinstance(case, dict) and "debug" not in case and draw(st.integers(0, 9)) in (3, 7):
+            case = {**case, "debug": True}
+        return case
+
+    return _s()
+
+
 def evaluate(mod: Any, case: Any, known: dict[str, dict], stats: Stats | None, origin: str) -> Violation | None:
     """Run one case; return the first violation not listed as known."""
+    debug = isinstance(case, dict) and bool(case.get("debug"))
+    set_debug_logging(debug)
     try:
         res: CaseResult = mod.run_case(case)
     except HarnessError:
@@ -231,6 +269,9 @@ def evaluate(mod: Any, case: Any, known: dict[str, dict], stats: Stats | None, o
             ],
             nontrivial=True,
         )
+    if debug:
+        set_debug_logging(False)
+        res.classes = sorted(set(res.classes) | {"debug_logging"})
     if stats is not None:
         stats.record(case, res, origin)
     first = None
@@ -267,6 +308,8 @@ def run_shard(args: tuple) -> ShardOutcome:
             for i, case in enumerate(mod.enumerated(tier)):
                 if i % nshards == shard:
                     fixed.append(("enumerated", case))
+                    if isinstance(case, dict) and "debug" not in case and (i // nshards) % 5 == 2:
+                        fixed.append(("enumerated", {**case, "debug": True}))
         for origin, case in fixed:
             v = evaluate(mod, case, known, stats, origin)
             if v is not None:
@@ -307,7 +350,7 @@ def hypothesis_search(mod, tier, hseed, examples, known, stats) -> tuple[Any, Vi
         print_blob=False,
         verbosity=hypothesis.Verbosity.quiet,
     )
-    @given(mod.strategy(tier))
+    @given(with_debug(mod.strategy(tier)))
     def prop(case):
         v = evaluate(mod, case, known, stats if counting[0] else None, "generated")
         if v is not None:
